@@ -3,7 +3,12 @@
 harness/hist.cpp (families 0-3; family 9 = modified_midpoint compile probe), SmoothModel/Hist.lean,
 Driver/OpsHist.lean.  Every executed op is a T1 line (implementation vs executable Lean model, current
 register contents as inputs); every program ends with a trailer from which the driver replays the
-whole history with the exact oracle (`hist_audit`)."""
+whole history with the exact oracle (`hist_audit`).
+
+The machine is two-sorted for SO2 / SE2: element registers E and lifted registers L (SO3 / SE3) with the
+ops `lift` (L[d] = E[a].lift_so3()/lift_se3()) and `project` (E[d] = L[a].project_so2()/project_se2());
+every lifted element is itself a checkpoint (finite, unit, q_w >= 0, distance to the exact lift of the
+exact history value)."""
 import json, math, os, sys, time
 from concurrent.futures import ThreadPoolExecutor
 sys.path.insert(0, os.path.dirname(os.path.dirname(__file__)))
@@ -13,9 +18,14 @@ from props.lie import parse_desc, flat_prims, prim_sizes, band_of
 
 PID = 'C15'
 FAMILIES = [0, 1, 2, 3]
-STEP_OPS = ('compose', 'inverse', 'exp', 'rplus', 'hist_cast', 'hist_liftproj', 'hist_ode')
-STEP_CODE = {'compose': 0, 'inverse': 1, 'exp': 2, 'rplus': 3, 'hist_cast': 6, 'hist_liftproj': 7, 'hist_ode': 9}
-OP_NAMES = ['compose', 'inverse', 'exp', 'rplus', 'mul_assign', 'plus_assign', 'cast', 'liftproj', 'settan', 'ode', 'loop']
+STEP_OPS = ('compose', 'inverse', 'exp', 'rplus', 'hist_cast', 'hist_liftproj', 'hist_ode', 'hist_lift', 'hist_project')
+STEP_CODE = {'compose': 0, 'inverse': 1, 'exp': 2, 'rplus': 3, 'hist_cast': 6, 'hist_liftproj': 7, 'hist_ode': 9,
+             'hist_lift': 11, 'hist_project': 12}
+OP_NAMES = ['compose', 'inverse', 'exp', 'rplus', 'mul_assign', 'plus_assign', 'cast', 'liftproj', 'settan', 'ode', 'loop',
+            'lift', 'project', 'setlift']
+LREP = {'SO2': 4, 'SE2': 7}      # coefficient count of the companion type (lifted registers)
+# projections whose conditioning rho = |(R00, R10)| is below this are informational (yaw singularity)
+RHO_MIN = 1e-2
 STEPPERS = ['euler', 'runge_kutta4', 'runge_kutta_cash_karp54', 'runge_kutta_dopri5', 'runge_kutta_fehlberg78']
 
 # property tolerances (per executed op; a checkpoint after k ops is judged at (k+1)·tol)
@@ -65,7 +75,7 @@ def tag_fields(tag):
     t = tag.split()
     d = {'prog': t[0] if t else '?'}
     for x in t[1:]:
-        if '=' in x and not x.startswith('chain') and not x.startswith('fanin'):
+        if '=' in x and ':' not in x:
             k, v = x.split('=', 1)
             d[k] = v
         else:
@@ -103,6 +113,19 @@ def step_tangent(l):
     return None
 
 
+def heading_band(l):
+    """distance of the heading of the SO2 / SE2 operand of a lift / lift∘project step to the half turn"""
+    v = l.in_vals()
+    sn, cs = (v[0], v[1]) if l.grp == 'SO2' else (v[2], v[3])
+    if not (math.isfinite(sn) and math.isfinite(cs)):
+        return 'nonfinite'
+    d = math.pi - abs(math.atan2(sn, cs))
+    if cs < 0 and (sn == 0 or d <= 2.5e-16):
+        return 'half_turn(sin=0 or 1ulp)'
+    tiny, near = (1.5e-8, 1e-4) if l.prec == 'f64' else (1e-3, 1e-2)
+    return f'<{tiny:g}' if d < tiny else f'{tiny:g}..{near:g}' if d < near else f'{near:g}..1e-2' if d < 1e-2 else 'generic'
+
+
 class Program:
     """decoded trailer"""
 
@@ -117,18 +140,24 @@ class Program:
         self.ne, self.nt, self.nops = int(v[0]), int(v[1]), int(v[2])
         off = 3 + self.ne * self.rep + self.nt * self.dof
         self.head = l.ins[:off]
+        self.lrep = LREP.get(l.grp, 0)
         self.ops = []          # (code, d, a, b, extra words)
         for _ in range(self.nops):
             code, d, a, b = (int(x) for x in v[off:off + 4])
-            nx = self.dof if code == 8 else 2 if code == 9 else 0
+            nx = self.dof if code == 8 else 2 if code == 9 else self.lrep if code == 13 else 0
             self.ops.append((code, d, a, b, l.ins[off + 4:off + 4 + nx]))
             off += 4 + nx
-        # checkpoints
+        # checkpoints `k r coeffs`: r < 100 element register (rep words), r >= 100 lifted register (lrep words)
         self.cks = []
         o = l.out_vals()
-        step = 2 + self.rep
-        for i in range(0, len(o) - step + 1, step):
-            self.cks.append((int(o[i]), int(o[i + 1]), l.outs[i + 2:i + step]))
+        i = 0
+        while i + 2 <= len(o):
+            reg = int(o[i + 1]) if math.isfinite(o[i + 1]) else 0
+            n = self.lrep if reg >= 100 else self.rep
+            if i + 2 + n > len(o):
+                break
+            self.cks.append((int(o[i]), reg, l.outs[i + 2:i + 2 + n]))
+            i += 2 + n
         self.n = self.total()
 
     def total(self):
@@ -138,6 +167,8 @@ class Program:
             if c[0] == 10:
                 n += c[1] * c[2]
                 i += 1 + c[1]
+            elif c[0] == 13:
+                i += 1
             else:
                 n += 1
                 i += 1
@@ -157,7 +188,8 @@ class Program:
 
     def describe(self, maxops=40):
         out = []
-        for (code, d, a, b, extra) in self.ops[:maxops]:
+        shown = [o for o in self.ops if o[0] != 13 or any(c[0] == 12 for c in self.ops)]
+        for (code, d, a, b, extra) in shown[:maxops]:
             if code == 10:
                 out.append(f'loop(len={d},count={a})')
             elif code == 8:
@@ -180,7 +212,13 @@ class Program:
                 out.append(f'E{d}=cast(E{a})')
             elif code == 7:
                 out.append(f'E{d}=liftproj(E{a})')
-        if len(self.ops) > maxops:
+            elif code == 11:
+                out.append(f'L{d}=lift(E{a})')
+            elif code == 12:
+                out.append(f'E{d}=project(L{a})')
+            elif code == 13:
+                out.append(f'L{d}:=[' + ','.join('%.17g' % dec(w, self.prec) for w in extra) + ']')
+        if len(shown) > maxops:
             out.append('…')
         return '; '.join(out)
 
@@ -199,13 +237,28 @@ class C15:
             'rounding errors are duplicated by the arithmetic itself, see fan-in programs — and if the exact result stays '
             'below 1e6 in magnitude), homogeneous chains (x=x*g, x*=g, x+=a, x=x+a, x=g*x, x=x.inverse(), x=x*g;x=x*g⁻¹, '
             'ode steps) up to 1e3 (quick) / 1e5 (thorough), fan-in programs x*=x (informational), odeint: 5 steppers x '
-            'step counts 1..1e4 x SO3 SE2 SE3 Bundle via integrate_n_steps.  evaluations = executed primitive ops; '
+            'step counts 1..1e4 x SO3 SE2 SE3 Bundle via integrate_n_steps.  SO2 / SE2 additionally (own random stream): '
+            'lifted registers L (SO3 / SE3) with ops lift (L=E.lift_so3()/lift_se3(), every lifted element audited: finite, unit, '
+            'q_w>=0, distance to the exact lift diag(M,1) of the exact history value) and project (E=L.project_so2()/project_se2(), '
+            'planar and non-planar L; exact yaw by 320-bit sqrt); special-point scripts: E at SO2(pi) SO2(-pi) SO2(0,-1) SO2(-0,-1) '
+            'SO2(complex(-2,0)) pi-+10^U(-12,-3) complex(-1,+-tiny) SO2(+-tiny,-1) 3pi -5pi nextafter(pi) pi-1e-4 quarter, '
+            'quarter*quarter, id*=quarter*=quarter, exp(+-pi), id+=quarter+=quarter, L at rot_z(pi), Quaternion(w=0,z=1), '
+            'rot_z(+-(pi-e)), non-planar; liftmix random programs (lift/project in the op mix, two registers at special points); '
+            'chains ENDING at a half turn ((G(pi/N))^N by *=, x*g, g*x, +=, odeint steps; N = 2,7,64,100..1000, chainlen/100, /10, '
+            'chainlen) followed by lift, lift∘project, project; projections next to the yaw singularity (informational).  '
+            'evaluations = executed primitive ops; '
             'distinct_nontrivial = distinct emitted step lines (op, group, scalar, input bits) + audited checkpoints')
     assumptions = ['IEEE rounding (the per-op ε) is measured against the exact oracle, not proved; the theorems carry the '
                    'invariants over ℝ, the drift recurrence for any ε, and the Runge–Kutta constant-velocity law',
                    'initial registers are the implementation\'s own constructor outputs taken as exact starting points',
                    'relative error of a register = max-entry distance of matrices / max(1, largest magnitude met along its history)',
-                   'boost::odeint 1.74 as installed; stage rows of runge_kutta_fehlberg78 are not modelled (only its weights)']
+                   'boost::odeint 1.74 as installed; stage rows of runge_kutta_fehlberg78 are not modelled (only its weights)',
+                   'the exact value of project_so2 / project_se2 is the yaw atan2(R10, R00) of the exact rotation; where its '
+                   'conditioning rho = |(R00, R10)| is below 1e-2 (pitch within 0.6 deg of +-90 deg) the accuracy of the projected '
+                   'element is reported, not judged (finiteness, unit norm are judged)']
+
+    def prebuild(self):
+        vlib.build_harnesses(specs())
 
     # -------------------------------------------------------------- generation
     def gen(self, ctx):
@@ -304,13 +357,15 @@ class C15:
                 broken.append({'what': 'correspondence', 'name': f'hist_run {p.grp} {p.prec} (model error {r})', 'first': {'line': p.line.raw[:2000]}})
                 continue
             w = r.split()
-            if len(w) != len(p.cks) * p.rep:
-                broken.append({'what': 'correspondence', 'name': f'hist_run {p.grp} {p.prec} (checkpoint count model {len(w) // max(1, p.rep)} impl {len(p.cks)})',
+            if len(w) != sum(len(c[2]) for c in p.cks):
+                broken.append({'what': 'correspondence', 'name': f'hist_run {p.grp} {p.prec} (checkpoint words model {len(w)} impl {sum(len(c[2]) for c in p.cks)})',
                                'first': {'line': p.line.raw[:2000]}})
                 continue
             run_stats['programs'] += 1
+            wpos = 0
             for i, (k, reg, cw) in enumerate(p.cks):
-                mw = w[i * p.rep:(i + 1) * p.rep]
+                mw = w[wpos:wpos + len(cw)]
+                wpos += len(cw)
                 ms = model_step.get((p.id, k))
                 run_stats['checkpoints'] += 1
                 if ms is None:
@@ -331,33 +386,43 @@ class C15:
         eps = {}          # (op tag, group, prec) -> [max matrix eps, max norm eps, n]
         eps_band = {}     # (group, prec, band) -> max matrix eps of exp-type steps
         step_eps = {}     # (prog id, k) -> (matrix eps, band, op)
+        lowrho = set()    # programs containing a projection next to the yaw singularity (informational)
+        rho_min = 1.0
         for l, r in zip(stepsel, sreps):
+            tf = tag_fields(l.tag)
+            if r.startswith('ERR projection-singular') or (r.startswith('ERR') and not all(math.isfinite(x) for x in l.in_vals())):
+                lowrho.add(tf['prog'])     # yaw undefined / operand already non-finite: nothing to measure
+                continue
             if r.startswith('ERR'):
                 raise vlib.MachineryError(f'hist_step failed: {l.raw[:120]} -> {r}')
             e = [dec(w, 'f64') for w in r.split()]
-            tf = tag_fields(l.tag)
             opn = tf.get('word', l.op)
             key = f'{opn}|{l.grp}|{l.prec}'
             opdef = e[2] if len(e) > 2 else 0.0
-            if not tf['prog'].startswith('s'):     # fan-in programs are informational only
+            if not tf['prog'].startswith(('s', 'g')):     # fan-in / yaw-singularity programs are informational only
                 s = eps.setdefault(key, [0.0, 0.0, 0, 0.0])
                 s[0], s[1], s[2] = max(s[0], e[0]), max(s[1], e[1]), s[2] + 1
                 if opdef <= (1e-15 if l.prec == 'f64' else 1e-6):
                     s[3] = max(s[3], e[0])         # operands unit to a few ulp: the op's own rounding
             tan = step_tangent(l)
             band = rot_band(l.grp, tan, l.prec)[0] if tan is not None else '-'
-            if tan is not None and not tf['prog'].startswith('s'):
+            if tan is not None and not tf['prog'].startswith(('s', 'g')):
                 bk = f'{l.grp}|{l.prec}|{band}'
                 eps_band[bk] = max(eps_band.get(bk, 0.0), e[0])
             if 'k' in tf:
                 step_eps[(tf['prog'], int(tf['k']))] = (e[0], band, opn, e[2] if len(e) > 2 else 0.0)
+            if l.op == 'hist_project' and len(e) > 3:
+                rho_min = min(rho_min, e[3])
+                if e[3] < RHO_MIN:
+                    lowrho.add(tf['prog'])
         t_eps = time.time() - t0
 
         # ---- history audit
         areqs = [' '.join(['hist_audit', p.grp, p.line.prec] + p.line.ins + p.line.outs) for p in progs]
         areps = pdriver(areqs)
         hist_stats = {'programs': len(progs), 'checkpoints': 0, 'ops_executed': sum(p.n for p in progs),
-                      'worst_defect_per_op': {}, 'worst_err_per_op': {}, 'float_informational': {}, 'fanin_informational': {}}
+                      'worst_defect_per_op': {}, 'worst_err_per_op': {}, 'float_informational': {}, 'fanin_informational': {},
+                      'yaw_singularity_informational': {}, 'lifted_checkpoints': sum(1 for p in progs for c in p.cks if c[1] >= 100)}
         length_hist = {}
         samples = []
         failing = []
@@ -365,6 +430,9 @@ class C15:
             lb = '1-5' if p.n <= 5 else '6-20' if p.n <= 20 else '21-60' if p.n <= 60 else '61-200' if p.n <= 200 else \
                 '201-1e3' if p.n <= 1000 else '1e3-1e4' if p.n <= 10000 else '1e4-1e5'
             length_hist[lb] = length_hist.get(lb, 0) + 1
+            illcond = p.shape.startswith('gimbal') or p.id in lowrho
+            if r.startswith('ERR projection-singular') and illcond:
+                continue
             if r.startswith('ERR'):
                 raise vlib.MachineryError(f'hist_audit failed on {p.grp} {p.prec} {p.id}: {r}')
             v = [dec(w, 'f64') for w in r.split()]
@@ -372,6 +440,9 @@ class C15:
             hist_stats['checkpoints'] += len(rows)
             gk = f'{p.grp}|{p.prec}'
             viol = {}
+            if illcond:
+                yi = hist_stats['yaw_singularity_informational'].setdefault(gk, {'worst_err_per_op': 0.0, 'programs': 0})
+                yi['programs'] += 1
             for (err, defect, minw, scale, fin, k) in rows:
                 k = int(k)
                 if p.fanin():
@@ -388,6 +459,14 @@ class C15:
                 if minw < 0:
                     viol.setdefault('sign', (k, -minw, 0.0))
                 d1, e1 = defect / (k + 1), err / (k + 1)
+                if illcond:
+                    # the yaw of an element next to the singularity rho = 0 is ill-conditioned (error/rho):
+                    # accuracy reported, not judged; finiteness, sign and unit norm are judged as usual
+                    yi = hist_stats['yaw_singularity_informational'].setdefault(gk, {'worst_err_per_op': 0.0, 'programs': 0})
+                    yi['worst_err_per_op'] = max(yi['worst_err_per_op'], e1)
+                    if p.prec == 'f64' and not (d1 <= TOL_DEFECT['f64']) and 'drift' not in viol:
+                        viol['drift'] = (k, defect, (k + 1) * TOL_DEFECT['f64'])
+                    continue
                 if p.prec == 'f64':
                     hist_stats['worst_defect_per_op'][gk] = max(hist_stats['worst_defect_per_op'].get(gk, 0.0), d1)
                     hist_stats['worst_err_per_op'][gk] = max(hist_stats['worst_err_per_op'].get(gk, 0.0), e1)
@@ -521,10 +600,22 @@ class C15:
         for l in steps:
             w = tag_fields(l.tag).get('word', l.op)
             opmix[w] = opmix.get(w, 0) + 1
+        lift_bands = {}
+        for l in steps:
+            if l.op in ('hist_lift', 'hist_liftproj'):
+                bk = f'{l.op[5:]}|{l.grp}|{l.prec}|{heading_band(l)}'
+                lift_bands[bk] = lift_bands.get(bk, 0) + 1
+        halfturn_chains = {}
+        for p in progs:
+            if p.shape.startswith('halfturn'):
+                halfturn_chains.setdefault(f'{p.grp}|{p.prec}|{p.shape}', []).append(p.n)
         cov = {'evaluations': hist_stats['ops_executed'] + len(odefin) + len(odestg),
                'distinct_nontrivial': len({(l.op, l.grp, l.prec, tuple(l.ins)) for l in steps}) + hist_stats['checkpoints'],
                'rule': self.rule, 'samples': samples,
                'step_lines': len(steps), 'op_mix': opmix, 'exp_argument_bands': strata,
+               'lift_operand_distance_to_half_turn': dict(sorted(lift_bands.items())),
+               'half_turn_chains_lengths': halfturn_chains,
+               'projection_min_conditioning_rho': rho_min, 'programs_with_ill_conditioned_projection': len(lowrho),
                'program_length_histogram': length_hist, 'programs_by_shape': self.by_shape(progs),
                't1_stats': t1['stats'], 't1_breaks': len(t1['breaks']), 'register_machine_t1': run_stats,
                'per_op_eps': {k: {'matrix': v[0], 'matrix_unit_operands': v[3], 'norm2': v[1], 'n': v[2]} for k, v in sorted(eps.items())},
@@ -578,8 +669,8 @@ class C15:
             chunk = max(1, len(ops) // n)
             reduced = False
             for s in range(0, len(ops), chunk):
-                cand = ops[:s] + ops[s + chunk:]
-                if not cand:
+                cand = ops[:s] + [o for o in ops[s:s + chunk] if o[0] == 13] + ops[s + chunk:]
+                if len(cand) == len(ops) or not [o for o in cand if o[0] != 13]:
                     continue
                 tries += 1
                 r = self.fails(ctx, p.grp, p.prec, p.head, cand, kind)
